@@ -30,11 +30,12 @@ check("C02",
       "state (public keys/get of every handle + an independent parse of the file bytes) must equal the model's after "
       "each call.  Direction B: seeded random histories (150-300 calls, 12 keys of 1..256 bytes incl. binary, values of "
       "0..70 kB, 3 handles, pickled handles) on real UKVFile objects are validated event by event by TLC against UKVFile.tla "
-      "(outcome, key listing, returned value, file size).",
+      "(outcome, key listing, returned value, file size); the same for seeded random histories on several long-lived "
+      "Collection objects (read-only / read-write, buffer sizes -1, 0, 6, 300, 100000) against Backend.tla.",
       "bounded model (constants in the evidence); scope: one writable handle at a time, no mode-'w' re-creation, puts "
       "only inside sessions; trusted: TLC, the harness's struct parser of the UKV format",
       "TLA+ spec (KVMap/UKVFile/Backend) model-checked with TLC; spec->code replay of every transition",
-      "DESIGN.md 4/C02", modules=("KVMap", "UKVFile", "MCUKVFile", "UKVFileTrace", "Backend", "MCBackend"))
+      "DESIGN.md 4/C02", modules=("KVMap", "UKVFile", "MCUKVFile", "UKVFileTrace", "Backend", "MCBackend", "BackendTrace"))
 
 check("C03",
       "TLC exhausts UKVCrash (every crash offset of append sessions over records with lengths 0..3, recovery by r / a+put / "
